@@ -308,6 +308,11 @@ func cmdCheck() int {
 		if *flagTier == "quick" && h.Opts.Tier != "quick" {
 			continue
 		}
+		// tier=deep: attempted harnesses whose queries do not finish within reach; not part of the
+		// registered quick/thorough commands (run with -tier deep), listed in DESIGN.md
+		if *flagTier != "deep" && h.Opts.Tier == "deep" {
+			continue
+		}
 		if only != nil && !only.MatchString(h.Name) {
 			continue
 		}
